@@ -3420,33 +3420,98 @@ impl BytecodeVM {
                 Ok(OpResult::Continue)
             }
 
-            Op::FinallyEnd => {
-                // Complete any pending return/throw/break/continue after finally block finishes
-                if let Some(pending) = self.pending_completion.take() {
-                    match pending {
-                        PendingCompletion::Return(guarded) => {
+            Op::FinallyStart { slot } => {
+                // Park the pending completion (if any) in the block's own register: as
+                // [kind, value, target, try_depth, scope_depth]
+                let parked = match self.pending_completion.take() {
+                    None => JsValue::Undefined,
+                    Some(pending) => {
+                        let fields = match pending {
+                            PendingCompletion::Return(guarded) => {
+                                vec![JsValue::Number(0.0), guarded.value]
+                            }
+                            PendingCompletion::Throw(guarded) => {
+                                vec![JsValue::Number(1.0), guarded.value]
+                            }
+                            PendingCompletion::Break {
+                                target,
+                                try_depth,
+                                scope_depth,
+                            } => vec![
+                                JsValue::Number(2.0),
+                                JsValue::Undefined,
+                                JsValue::Number(target as f64),
+                                JsValue::Number(try_depth as f64),
+                                JsValue::Number(scope_depth as f64),
+                            ],
+                            PendingCompletion::Continue {
+                                target,
+                                try_depth,
+                                scope_depth,
+                            } => vec![
+                                JsValue::Number(3.0),
+                                JsValue::Undefined,
+                                JsValue::Number(target as f64),
+                                JsValue::Number(try_depth as f64),
+                                JsValue::Number(scope_depth as f64),
+                            ],
+                        };
+                        let guard = interp.heap.create_guard();
+                        for field in &fields {
+                            field.guard_by(&guard);
+                        }
+                        JsValue::Object(interp.create_array_from(&guard, fields))
+                    }
+                };
+                self.set_reg(slot, parked);
+                Ok(OpResult::Continue)
+            }
+
+            Op::FinallyEnd { slot } => {
+                // Complete the return/throw/break/continue parked by FinallyStart
+                let parked = mem::replace(
+                    self.registers
+                        .get_mut(slot as usize)
+                        .ok_or_else(|| JsError::internal_error("Invalid finally slot"))?,
+                    JsValue::Undefined,
+                );
+                if let JsValue::Object(record) = parked {
+                    let fields: Vec<JsValue> = record
+                        .borrow()
+                        .array_elements()
+                        .map(|elements| elements.to_vec())
+                        .unwrap_or_default();
+                    let number = |i: usize| match fields.get(i) {
+                        Some(JsValue::Number(n)) => *n,
+                        _ => 0.0,
+                    };
+                    let value = fields.get(1).cloned().unwrap_or(JsValue::Undefined);
+                    match number(0) as u8 {
+                        0 => {
                             // Continue with the return (recursively handles nested finally blocks)
-                            return self.execute_return(guarded.value, interp);
+                            return self.execute_return(value, interp);
                         }
-                        PendingCompletion::Throw(guarded) => {
+                        1 => {
                             // Re-throw the exception after finally
-                            return Err(JsError::ThrownValue { guarded });
+                            return Err(JsError::ThrownValue {
+                                guarded: Guarded::from_value(value, &interp.heap),
+                            });
                         }
-                        PendingCompletion::Break {
-                            target,
-                            try_depth,
-                            scope_depth,
-                        } => {
-                            // Continue with the break (recursively handles nested finally blocks)
-                            return self.execute_break(interp, target, try_depth, scope_depth);
+                        2 => {
+                            return self.execute_break(
+                                interp,
+                                number(2) as usize,
+                                number(3) as u8,
+                                number(4) as u8,
+                            );
                         }
-                        PendingCompletion::Continue {
-                            target,
-                            try_depth,
-                            scope_depth,
-                        } => {
-                            // Continue with the continue (recursively handles nested finally blocks)
-                            return self.execute_continue(interp, target, try_depth, scope_depth);
+                        _ => {
+                            return self.execute_continue(
+                                interp,
+                                number(2) as usize,
+                                number(3) as u8,
+                                number(4) as u8,
+                            );
                         }
                     }
                 }
